@@ -118,6 +118,19 @@ func cmdCheck(args []string) int {
 		res := e.VerifyFunction(t.fn, t.c, panicProps[*prop], props)
 		results = append(results, res)
 		allObls = append(allObls, res.Obls...)
+		for _, im := range t.c.Implements {
+			key := im
+			if !strings.Contains(im, "/") {
+				key = t.c.Pkg + "." + im
+			}
+			ic := e.specs.Ifaces[key]
+			if ic == nil || !ic.Props[*prop] {
+				continue
+			}
+			res := e.VerifyFunctionAs(t.fn, t.c, panicProps[*prop], props, key)
+			results = append(results, res)
+			allObls = append(allObls, res.Obls...)
+		}
 	}
 	// lemmas
 	lemObls, lemErr := e.lemmaObligations(*prop)
@@ -267,6 +280,22 @@ func cmdCheck(args []string) int {
 	os.WriteFile(filepath.Join(*vdir, "evidence", *prop+".json"), append(b, '\n'), 0o644)
 	fmt.Printf("%s: %d functions, %d obligations, %d discharged, %d violations, %d known findings, %.1fs\n", *prop, len(results), nObl, nDis, violations, len(knownHit), time.Since(t0).Seconds())
 	if *verbose {
+		sorted := append([]*Obligation{}, allObls...)
+		sort.Slice(sorted, func(i, j int) bool {
+			a, b := 0.0, 0.0
+			if sorted[i].Result != nil {
+				a = sorted[i].Result.Seconds
+			}
+			if sorted[j].Result != nil {
+				b = sorted[j].Result.Seconds
+			}
+			return a > b
+		})
+		for i := 0; i < 8 && i < len(sorted); i++ {
+			if sorted[i].Result != nil {
+				fmt.Printf("  slow: %.1fs %s [%s %s]\n", sorted[i].Result.Seconds, sorted[i].Name, sorted[i].Result.Solver, sorted[i].Result.Phase)
+			}
+		}
 		for _, r := range results {
 			printResult(e, r, false)
 		}
